@@ -523,6 +523,12 @@ func defineFieldMap(ttype Named, fieldMap Fields) (FieldDefinitionMap, error) {
 		if field.Type.Error() != nil {
 			return resultFieldMap, field.Type.Error()
 		}
+		if err = invariantf(
+			IsOutputType(field.Type),
+			`%v.%v field type must be Output Type but got: %v.`, ttype, fieldName, field.Type,
+		); err != nil {
+			return resultFieldMap, err
+		}
 		if err = assertValidName(fieldName); err != nil {
 			return resultFieldMap, err
 		}
@@ -548,6 +554,12 @@ func defineFieldMap(ttype Named, fieldMap Fields) (FieldDefinitionMap, error) {
 			}
 			if err = invariantf(
 				arg.Type != nil,
+				`%v.%v(%v:) argument type must be Input Type but got: %v.`, ttype, fieldName, argName, arg.Type,
+			); err != nil {
+				return resultFieldMap, err
+			}
+			if err = invariantf(
+				IsInputType(arg.Type),
 				`%v.%v(%v:) argument type must be Input Type but got: %v.`, ttype, fieldName, argName, arg.Type,
 			); err != nil {
 				return resultFieldMap, err
@@ -1148,6 +1160,9 @@ func NewInputObject(config InputObjectConfig) *InputObject {
 	if gt.err = invariant(config.Name != "", "Type must be named."); gt.err != nil {
 		return gt
 	}
+	if gt.err = assertValidName(config.Name); gt.err != nil {
+		return gt
+	}
 
 	gt.PrivateName = config.Name
 	gt.PrivateDescription = config.Description
@@ -1188,12 +1203,26 @@ func (gt *InputObject) defineFieldMap() InputObjectFieldMap {
 		); gt.err != nil {
 			return resultFieldMap
 		}
+		if gt.err = invariantf(
+			IsInputType(fieldConfig.Type),
+			`%v.%v field type must be Input Type but got: %v.`, gt, fieldName, fieldConfig.Type,
+		); gt.err != nil {
+			return resultFieldMap
+		}
 		field := &InputObjectField{}
 		field.PrivateName = fieldName
 		field.Type = fieldConfig.Type
 		field.PrivateDescription = fieldConfig.Description
 		field.DefaultValue = fieldConfig.DefaultValue
 		resultFieldMap[fieldName] = field
+	}
+	// fields with illegal names are skipped; a type left without any field
+	// is as malformed as one configured without fields
+	if gt.err = invariantf(
+		len(resultFieldMap) > 0,
+		`%v fields must be an object with field names as keys or a function which return such an object.`, gt,
+	); gt.err != nil {
+		return resultFieldMap
 	}
 	gt.init = true
 	return resultFieldMap
